@@ -77,6 +77,10 @@ def gen_enum(rng, idx, n_enabled, placement, generics, kinds, robust=False):
         elif not dis and not robust and rng.random() < 0.15:
             extra = rng.choice(['#[strum(serialize = "x%d")]' % vi, '#[strum(to_string = "t%d")]' % vi,
                                 '#[strum(message = "m")]', '#[strum(props(a = "b"))]'])
+        if not extra:
+            fs = noise.foreign_switch("c05-%s-%d" % (name, vi), 0.12 if len(mask) <= 70 else 0.02)
+            if fs:
+                extra = fs[0]
         ident = "V%d" % vi
         if tricky and vi < len(tricky):
             ident = tricky[vi]
